@@ -155,12 +155,284 @@ fn cmd_reconcile_random(args: &[String]) {
     out.finish();
 }
 
+
+// ---------------------------------------------------------------------------------------------
+// C19 / C15: glob_match, is_excluded, build_plan, parse_remote_meta_output
+// ---------------------------------------------------------------------------------------------
+use cb::meta::parse_remote_meta_output;
+use cb::plan::{build_plan, glob_match, is_excluded, FileMeta, MetaMap};
+
+fn chars_to_string(v: &Value) -> String {
+    v.as_array().unwrap().iter().map(|c| c.as_str().unwrap()).collect()
+}
+fn all_strs(sigma: &[String], l: usize) -> Vec<Vec<String>> {
+    let mut out: Vec<Vec<String>> = vec![vec![]];
+    let mut cur: Vec<Vec<String>> = vec![vec![]];
+    for _ in 0..l {
+        let mut next = Vec::new();
+        for s in &cur {
+            for c in sigma {
+                let mut t = s.clone();
+                t.push(c.clone());
+                next.push(t);
+            }
+        }
+        out.extend(next.iter().cloned());
+        cur = next;
+    }
+    out
+}
+fn rel_path(comps: &[String]) -> PathBuf {
+    let mut p = PathBuf::new();
+    for c in comps {
+        p.push(c);
+    }
+    p
+}
+
+/// args: cases.ndjson out.ndjson L  (Sigma is fixed to the spec's alphabet)
+fn cmd_glob_cases(args: &[String]) {
+    let cases = read_ndjson(&args[0]);
+    let mut out = NdjsonWriter::create(&args[1]);
+    let l: usize = args[2].parse().unwrap();
+    let sigma: Vec<String> = ["a", "b", "*", "?", ".", "/"].iter().map(|s| s.to_string()).collect();
+    let texts: Vec<String> = all_strs(&sigma, l).iter().map(|t| t.concat()).collect();
+    // Rels exactly as Glob.tla defines them
+    let names: Vec<String> = all_strs(&sigma, 2).iter().map(|t| t.concat()).filter(|t| !t.is_empty() && !t.contains('/') && t != "." && t != "..").collect();
+    let mut rels: Vec<Vec<String>> = names.iter().map(|n| vec![n.clone()]).collect();
+    for pre in ["a", "*", "a."] {
+        for n in &names {
+            rels.push(vec![pre.to_string(), n.clone()]);
+        }
+    }
+    let (mut evals, mut mism, mut nontrivial) = (0u64, 0u64, 0u64);
+    for c in &cases {
+        let pat = chars_to_string(&c["pat"]);
+        let yes: std::collections::HashSet<String> = c["yes"].as_array().unwrap().iter().map(chars_to_string).collect();
+        let excl: std::collections::HashSet<Vec<String>> = c["excl"].as_array().unwrap().iter()
+            .map(|r| r.as_array().unwrap().iter().map(chars_to_string).collect()).collect();
+        if !yes.is_empty() && yes.len() < texts.len() { nontrivial += 1; }
+        for t in &texts {
+            let got = std::panic::catch_unwind(|| glob_match(&pat, t));
+            evals += 1;
+            let want = yes.contains(t);
+            if got.as_ref().ok() != Some(&want) {
+                mism += 1;
+                if mism < 200 { out.write(&json!({"kind":"glob","pat":pat,"text":t,"want":want,"got":format!("{got:?}")})); }
+            }
+        }
+        for r in &rels {
+            let path = rel_path(r);
+            let got = std::panic::catch_unwind(|| is_excluded(&path, &[pat.clone()]));
+            evals += 1;
+            let want = excl.contains(r);
+            if got.as_ref().ok() != Some(&want) {
+                mism += 1;
+                if mism < 200 { out.write(&json!({"kind":"excl","pat":pat,"rel":r,"want":want,"got":format!("{got:?}")})); }
+            }
+        }
+    }
+    out.write(&json!({"kind":"summary","cases":cases.len(),"texts":texts.len(),"rels":rels.len(),"evaluations":evals,"mismatches":mism,"nontrivial":nontrivial}));
+    out.finish();
+}
+
+const PLAN_NAMES: [&str; 3] = ["a", "a/b", "a.b"];
+
+fn cmd_plan_cases(args: &[String]) {
+    let cases = read_ndjson(&args[0]);
+    let mut out = NdjsonWriter::create(&args[1]);
+    let seed: u64 = args[2].parse().unwrap();
+    let mut rng = rand::rngs::StdRng::seed_from_u64(seed);
+    // concretisations of the abstract sizes / mtimes {1,2}
+    let concs: Vec<([u64; 2], [i64; 2])> = vec![
+        ([0, 1], [0, 1]),
+        ([5, 6], [1_700_000_000, 1_700_000_001]),
+        ([u64::MAX - 1, u64::MAX], [i64::MAX - 1, i64::MAX]),
+        ([1 << 32, (1 << 32) + 1], [(1 << 31) - 1, 1 << 31]),
+        ([rng.gen(), rng.gen()], [rng.gen_range(0..i64::MAX), rng.gen_range(0..i64::MAX)]),
+    ];
+    let (mut evals, mut mism, mut nontrivial) = (0u64, 0u64, 0u64);
+    for (ci, c) in cases.iter().enumerate() {
+        let pats: Vec<String> = c["pats"].as_array().unwrap().iter().map(chars_to_string).collect();
+        let del = c["del"].as_bool().unwrap();
+        let want_t: Vec<usize> = c["transfer"].as_array().unwrap().iter().map(|x| x.as_u64().unwrap() as usize - 1).collect();
+        let want_d: Vec<usize> = c["delete"].as_array().unwrap().iter().map(|x| x.as_u64().unwrap() as usize - 1).collect();
+        let want_s = c["skipped"].as_u64().unwrap() as usize;
+        if !want_t.is_empty() || !want_d.is_empty() { nontrivial += 1; }
+        for (ki, (sz, mt)) in concs.iter().enumerate() {
+            if sz[0] == sz[1] || mt[0] == mt[1] { continue; }
+            let mk = |side: &Value| -> MetaMap {
+                let mut m = MetaMap::new();
+                for (i, e) in side.as_array().unwrap().iter().enumerate() {
+                    let a = e.as_array().unwrap();
+                    if a.len() == 2 {
+                        m.insert(PathBuf::from(PLAN_NAMES[i]), FileMeta { size: sz[a[0].as_u64().unwrap() as usize - 1], mtime: mt[a[1].as_u64().unwrap() as usize - 1] });
+                    }
+                }
+                m
+            };
+            let (src, dst) = (mk(&c["src"]), mk(&c["dst"]));
+            let r = std::panic::catch_unwind(|| build_plan(&src, &dst, &pats, del));
+            evals += 1;
+            let idx = |p: &PathBuf| PLAN_NAMES.iter().position(|n| PathBuf::from(n) == *p).unwrap_or(99);
+            let ok = match &r {
+                Ok(pl) => pl.transfer.iter().map(idx).collect::<Vec<_>>() == want_t
+                    && pl.delete.iter().map(idx).collect::<Vec<_>>() == want_d && pl.skipped == want_s,
+                Err(_) => false,
+            };
+            if !ok {
+                mism += 1;
+                if mism < 100 {
+                    out.write(&json!({"kind":"plan","case":ci,"conc":ki,"input":c,"got":r.as_ref().map(|pl| format!("{pl:?}")).unwrap_or("PANIC".into())}));
+                }
+            }
+        }
+    }
+    out.write(&json!({"kind":"summary","cases":cases.len(),"evaluations":evals,"mismatches":mism,"nontrivial":nontrivial}));
+    out.finish();
+}
+
+fn tok_bytes(v: &Value) -> Vec<u8> {
+    let mut out = Vec::new();
+    for t in v.as_array().unwrap() {
+        match t.as_str().unwrap() {
+            "TAB" => out.push(b'\t'),
+            "NL" => out.push(b'\n'),
+            "NUL" => out.push(0),
+            x => out.extend_from_slice(x.as_bytes()),
+        }
+    }
+    out
+}
+
+fn cmd_listing_cases(args: &[String]) {
+    let cases = read_ndjson(&args[0]);
+    let mut out = NdjsonWriter::create(&args[1]);
+    let (mut evals, mut mism, mut nontrivial) = (0u64, 0u64, 0u64);
+    for (ci, c) in cases.iter().enumerate() {
+        let bytes = tok_bytes(&c["bytes"]);
+        let mut want: std::collections::BTreeMap<PathBuf, (u64, i64)> = Default::default();
+        for w in c["want"].as_array().unwrap() {
+            let path = String::from_utf8(tok_bytes(&w["path"])).unwrap();
+            let size: u64 = String::from_utf8(tok_bytes(&w["size"])).unwrap().parse().unwrap();
+            let secs: i64 = String::from_utf8(tok_bytes(&w["secs"])).unwrap().parse().unwrap();
+            want.insert(PathBuf::from(path), (size, secs));
+        }
+        if want.len() >= 1 { nontrivial += 1; }
+        let r = std::panic::catch_unwind(|| parse_remote_meta_output(&bytes));
+        evals += 1;
+        let got: Option<std::collections::BTreeMap<PathBuf, (u64, i64)>> = r.ok().map(|m| m.into_iter().map(|(p, fm)| (p, (fm.size, fm.mtime))).collect());
+        if got.as_ref() != Some(&want) {
+            mism += 1;
+            if mism < 100 {
+                out.write(&json!({"kind":"listing","case":ci,"bytes":String::from_utf8_lossy(&bytes),"want":format!("{want:?}"),"got":format!("{got:?}")}));
+            }
+        }
+    }
+    out.write(&json!({"kind":"summary","cases":cases.len(),"evaluations":evals,"mismatches":mism,"nontrivial":nontrivial}));
+    out.finish();
+}
+
+fn chars_json(s: &str) -> Value {
+    Value::Array(s.chars().map(|c| Value::String(c.to_string())).collect())
+}
+
+/// code -> spec: seeded cases beyond the exhaustive scope, results recorded for PlanTrace.tla
+fn cmd_plan_random(args: &[String]) {
+    let n: usize = args[0].parse().unwrap();
+    let seed: u64 = args[1].parse().unwrap();
+    let mut out = NdjsonWriter::create(&args[2]);
+    let mut rng = rand::rngs::StdRng::seed_from_u64(seed);
+    let alpha: Vec<char> = vec!['a', 'b', 'c', '*', '?', '.', '-', '[', 'é', ' '];
+    let gen_str = |rng: &mut rand::rngs::StdRng, maxlen: usize, star_bias: bool, slash: bool| -> String {
+        let len = rng.gen_range(0..=maxlen);
+        (0..len).map(|_| {
+            if slash && rng.gen_range(0..6) == 0 { return '/'; }
+            if star_bias && rng.gen_range(0..3) == 0 { return if rng.gen() { '*' } else { '?' }; }
+            alpha[rng.gen_range(0..alpha.len())]
+        }).collect()
+    };
+    for k in 0..n {
+        match k % 3 {
+            0 => {
+                // glob: text derived from the pattern half of the time so matches are frequent
+                let pat = gen_str(&mut rng, 8, true, false);
+                let text = if rng.gen() {
+                    pat.chars().flat_map(|c| match c {
+                        '*' => { let m = rng.gen_range(0..3); (0..m).map(|_| alpha[rng.gen_range(0..alpha.len())]).collect::<Vec<_>>() }
+                        '?' => vec![alpha[rng.gen_range(0..alpha.len())]],
+                        c => if rng.gen_range(0..12) == 0 { vec![alpha[rng.gen_range(0..alpha.len())]] } else { vec![c] },
+                    }).collect()
+                } else { gen_str(&mut rng, 8, false, false) };
+                let res = std::panic::catch_unwind(|| glob_match(&pat, &text));
+                out.write(&json!({"ev":"glob","pat":chars_json(&pat),"text":chars_json(&text),"res":res.unwrap_or(false) , "panic": false}));
+            }
+            1 => {
+                let depth = rng.gen_range(1..=4);
+                let comps: Vec<String> = (0..depth).map(|_| { let mut s = gen_str(&mut rng, 4, false, false); if s.is_empty() || s == "." || s == ".." { s = "x".into(); } s }).collect();
+                let npat = rng.gen_range(0..=3);
+                let pats: Vec<String> = (0..npat).map(|_| {
+                    if rng.gen_range(0..3) == 0 { comps[rng.gen_range(0..comps.len())].clone() + if rng.gen() { "/" } else { "" } }
+                    else if rng.gen_range(0..3) == 0 { comps.join("/") }
+                    else { gen_str(&mut rng, 5, true, true) }
+                }).collect();
+                let path = rel_path(&comps);
+                let res = std::panic::catch_unwind(|| is_excluded(&path, &pats)).unwrap_or(false);
+                out.write(&json!({"ev":"excl","rel":comps.iter().map(|c| chars_json(c)).collect::<Vec<_>>(),
+                    "pats":pats.iter().map(|p| chars_json(p)).collect::<Vec<_>>(),"res":res}));
+            }
+            _ => {
+                let nfiles = rng.gen_range(1..=8);
+                let mut paths: std::collections::BTreeSet<PathBuf> = Default::default();
+                while paths.len() < nfiles {
+                    let depth = rng.gen_range(1..=3);
+                    let comps: Vec<String> = (0..depth).map(|_| { let mut s = gen_str(&mut rng, 3, false, false); if s.is_empty() || s == "." || s == ".." { s = "y".into(); } s }).collect();
+                    paths.insert(rel_path(&comps));
+                }
+                let paths: Vec<PathBuf> = paths.into_iter().collect(); // PathBuf order
+                let sizes = [0u64, 1, 4096, u64::MAX];
+                let mtimes = [0i64, 1, 1_700_000_000, i64::MAX];
+                let (mut src, mut dst) = (MetaMap::new(), MetaMap::new());
+                let (mut js, mut jd) = (Vec::new(), Vec::new());
+                for p in &paths {
+                    let mut side = |m: &mut MetaMap, j: &mut Vec<Value>, rng: &mut rand::rngs::StdRng| {
+                        if rng.gen_range(0..3) == 0 { j.push(json!([])); } else {
+                            let (a, b) = (rng.gen_range(0..4), rng.gen_range(0..4));
+                            m.insert(p.clone(), FileMeta { size: sizes[a], mtime: mtimes[b] });
+                            j.push(json!([a + 1, b + 1]));
+                        }
+                    };
+                    side(&mut src, &mut js, &mut rng);
+                    side(&mut dst, &mut jd, &mut rng);
+                }
+                let npat = rng.gen_range(0..=2);
+                let pats: Vec<String> = (0..npat).map(|_| {
+                    if rng.gen() { let p = &paths[rng.gen_range(0..paths.len())]; p.components().next().unwrap().as_os_str().to_string_lossy().into_owned() }
+                    else { gen_str(&mut rng, 4, true, true) }
+                }).collect();
+                let del: bool = rng.gen();
+                let r = std::panic::catch_unwind(|| build_plan(&src, &dst, &pats, del));
+                let idx = |p: &PathBuf| paths.iter().position(|q| q == p).map(|i| i + 1).unwrap_or(0);
+                let (t, d, s) = match &r { Ok(pl) => (pl.transfer.iter().map(idx).collect::<Vec<_>>(), pl.delete.iter().map(idx).collect::<Vec<_>>(), pl.skipped), Err(_) => (vec![0], vec![0], 0) };
+                let names: Vec<Value> = paths.iter().map(|p| Value::Array(p.components().map(|c| chars_json(&c.as_os_str().to_string_lossy())).collect())).collect();
+                out.write(&json!({"ev":"plan","names":names,"src":js,"dst":jd,"pats":pats.iter().map(|p| chars_json(p)).collect::<Vec<_>>(),
+                    "del":del,"transfer":t,"delete":d,"skipped":s}));
+            }
+        }
+    }
+    out.finish();
+}
+
 fn main() {
     let args: Vec<String> = std::env::args().skip(1).collect();
     let rest = &args[1..];
     match args[0].as_str() {
         "reconcile-cases" => cmd_reconcile_cases(rest),
         "reconcile-random" => cmd_reconcile_random(rest),
+        "glob-cases" => cmd_glob_cases(rest),
+        "plan-cases" => cmd_plan_cases(rest),
+        "listing-cases" => cmd_listing_cases(rest),
+        "plan-random" => cmd_plan_random(rest),
         x => { eprintln!("unknown subcommand {x}"); std::process::exit(2) }
     }
 }
